@@ -815,6 +815,13 @@ TOP:
 		fd.mu.Unlock()
 		switch {
 		case 0 < len(goField):
+			// A struct field takes no arguments. What the request gives for
+			// the arguments the schema declares is checked as for the other
+			// resolvers all the same.
+			if _, ea2 := root.formArgs(vars, field, fd); 0 < len(ea2) {
+				ea = append(ea, ea2...)
+				break
+			}
 			if ov.Kind() == reflect.Ptr {
 				ov = ov.Elem()
 			}
